@@ -122,6 +122,7 @@ class VProcess(object):
         self.pid = None
         self.tasks = 0
         self.traps_sigterm = False
+        self.unkillable = False   # os.kill on it raises OSError (the library logs and carries on)
         self.exitcode = None
 
     def start(self):
@@ -174,6 +175,8 @@ def _kill(pid, sig):
     w.s.point(('os.kill',))
     for p in w.procs:
         if p.pid == pid:
+            if p.unkillable:
+                raise OSError('operation not permitted (injected)')
             if sig == real_signal.SIGKILL or not p.traps_sigterm:
                 _freeze(p.t)
             return
@@ -236,7 +239,15 @@ class FakePlayback(object):
 
 
 BEHAVIOURS = ['equal', 'different', 'player_raises', 'extractor_raises', 'comparator_raises', 'bare_status', 'exit', 'hang', 'late',
-              'hang_traps_sigterm', 'spawns_child']
+              'hang_traps_sigterm', 'spawns_child', 'late_unkillable', 'player_raises_badstr']
+
+
+class BadStr(Exception):
+    """An exception of the replayed code whose __str__ itself fails (so building the failure text fails too)."""
+
+    def __str__(self):
+        return 12345   # TypeError: __str__ returned non-string
+
 
 
 def run_equalizer(behaviours, prefix, dedicated=True, timeout=2, recycle=5, keep=False, consumer=('drain',), max_steps=6000):
@@ -259,6 +270,8 @@ def run_equalizer(behaviours, prefix, dedicated=True, timeout=2, recycle=5, keep
         t0 = w.clock
         if b == 'player_raises':
             raise ValueError('player fails for ' + rid)
+        if b == 'player_raises_badstr':
+            raise BadStr()
         if b == 'exit':
             if proc is None:
                 raise RuntimeError('exit only makes sense in a worker')
@@ -267,7 +280,11 @@ def run_equalizer(behaviours, prefix, dedicated=True, timeout=2, recycle=5, keep
             if proc is not None:
                 proc.traps_sigterm = b == 'hang_traps_sigterm'
             s.block_until(lambda: False, ('player.hang',))
-        if b == 'late':
+        if b in ('late', 'late_unkillable'):
+            if proc is not None:
+                proc.unkillable = b == 'late_unkillable'
+            if proc is None and b == 'late_unkillable':
+                raise RuntimeError('needs a worker')
             s.block_until(lambda: w.clock - t0 > timeout, ('player.late',))
         if b == 'spawns_child' and proc is not None and proc.daemon:
             raise AssertionError('daemonic processes are not allowed to have children')
@@ -295,6 +312,7 @@ def run_equalizer(behaviours, prefix, dedicated=True, timeout=2, recycle=5, keep
                        compare_execution_config=CompareExecutionConfig(keep_results_in_comparison=keep, compare_in_dedicated_process=dedicated,
                                                                        compare_process_recycle_rate=recycle, compare_process_timeout=timeout))
         gen = eq.run_comparison()
+        del eq
         t_prev = w.clock
         try:
             k = 0
@@ -309,13 +327,22 @@ def run_equalizer(behaviours, prefix, dedicated=True, timeout=2, recycle=5, keep
                     break
                 if consumer[0] == 'raise' and k >= consumer[1]:
                     raise RuntimeError('consumer fails')
+                if consumer[0] == 'drop' and k >= consumer[1]:
+                    break
         except RuntimeError as e:
             res['consumer_exc'] = e
             gen.close()
             del gen
         res['finished'] = True
+    import gc
     w.parent = s.spawn(parent, 'parent')
-    ok = s.run()
+    was = gc.isenabled()
+    gc.disable()   # abandonment must be cleaned up by reference counting, not by a lucky cyclic collection
+    try:
+        ok = s.run()
+    finally:
+        if was:
+            gc.enable()
     alive = [p.pid for p in w.procs if p.t is not None and not p.t.done and not p.t.killed]
     return s, {'ok': ok, 'deadlock': s.deadlock, 'horizon': s.horizon, 'out': out, 'alive': alive, 'finished': res['finished'],
                'tasks': [(p.pid, p.tasks) for p in w.procs], 'procs': len(w.procs), 'clock': w.clock, 'log': w.log,
